@@ -195,6 +195,67 @@ def chain(existing):
                          newport=0, newtext="0", err=err))
 
 
+def midboot(existing):
+    """TorConfig.create_socks_endpoint on a TorConfig during whose bootstrap - after it had read SocksPort - another
+    controller added a SOCKS listener, which Tor announced at once.  The request under test is a new port: Tor's
+    listeners at that time are the existing ones."""
+    lines = list(existing["lines"])
+    proto = TorControlProtocol()
+    tr = proto_helpers.StringTransport()
+    sim = simtor.SimTor(proto, tr)
+    sim.info.update({"config/names": ["SocksPort Dependent", "SocksPortLines Dependent", "__SocksPort Dependent", "Nickname String"],
+                     "config/defaults": ["SocksPort 9050", "Nickname Unnamed"], "onions/current": "", "onions/detached": ""})
+    store = list(lines)
+    sim.conf["socksport"] = list(store)
+    sim.conf["__socksport"] = ["9050"]
+    sets = []
+
+    def setconf(line):
+        vals = [v for k, v in cfgh.parse_setconf(line) if k.lower() == "socksport"]
+        sets.append(vals)
+        store[:] = vals
+        return b"250 OK\r\n"
+    sim.handlers["SETCONF"] = setconf
+    state = dict(asked=False, done=False)
+    orig_answer = sim.answer
+
+    def answer(line):
+        if state["asked"] and not state["done"]:
+            state["done"] = True
+            store.append("9999")
+            sim.conf["socksport"] = list(store)
+            ev = "650-CONF_CHANGED\r\n" + "".join("650-SocksPort=%s\r\n" % v for v in store) + "650 OK\r\n"
+            proto.dataReceived(ev.encode("latin-1"))
+        if line.upper().startswith("GETCONF ") and line.split(" ", 1)[1].lower() == "socksport":
+            state["asked"] = True
+        return orig_answer(line)
+    sim.answer = answer
+    proto.makeConnection(tr)
+    sim.pump()
+    reactor = oa.PortReactor()
+    cd = TorConfig.from_protocol(proto)
+    sim.pump()
+    fired, err = [], False
+    before = list(store)
+    try:
+        config = cd.result
+        d = config.create_socks_endpoint(reactor, "8888")
+        d.addBoth(fired.append)
+        sim.pump()
+    except Exception:
+        err = True
+    ep = None
+    if fired and not isinstance(fired[0], failure.Failure):
+        ep = fired[0]
+    else:
+        err = True
+    return dict(part="a", path="config", twice=False, midboot=True, base=lines, reqfirst="8888", lookupfails=False,
+                existing=[entry(l) for l in before], requested="8888", reqep=ep_record_from_text("8888"),
+                obs=dict(setconf=sets[0] if sets else [], nset=len(sets),
+                         ep=ep_record(ep) if ep is not None else dict(kind="none", host="", port=0, path=""),
+                         newport=0, newtext="0", err=err))
+
+
 def ep_record_from_text(text):
     e = entry(text)
     return dict(kind="unix" if e["kind"] == "unix" else "tcp", host=e["host"], port=e["port"], path=e["path"])
